@@ -221,3 +221,114 @@ func handedMapRule(c *Ctx, rule string) {
 	}
 	c.Floor(rule, n, 10)
 }
+
+// noFabricateC10: the splitter does not invent truth values.
+func noFabricateC10(c *Ctx, ce *ssa.Function) {
+	p := c.P
+	c.Rule("C10.nofabricate", "no return of conditionExpr hands back a BooleanLiteral it built itself: the residual is the condition's own sub-expressions (reduced), never a verdict the splitter reached from the time bounds — `time >= X AND time <= X` describes one instant, and a residual `false` made up because the range looked empty rejects the point at that instant")
+	n := 0
+	for _, b := range ce.Blocks {
+		ret, ok := b.Instrs[len(b.Instrs)-1].(*ssa.Return)
+		if !ok || len(ret.Results) != 3 {
+			continue
+		}
+		n++
+		key := fmt.Sprintf("conditionExpr: return #%d", n)
+		fab := false
+		var look func(v ssa.Value, d int)
+		look = func(v ssa.Value, d int) {
+			if d > 3 {
+				return
+			}
+			switch x := v.(type) {
+			case *ssa.MakeInterface:
+				if a, ok := x.X.(*ssa.Alloc); ok && p.TypeStr(a.Type()) == "*BooleanLiteral" {
+					fab = true
+				}
+			case *ssa.Phi:
+				for _, e := range x.Edges {
+					look(e, d+1)
+				}
+			}
+		}
+		look(ret.Results[0], 0)
+		if fab {
+			c.Bad("C10.nofabricate", key, ret.Pos(), "the residual returned is a BooleanLiteral built here")
+		} else {
+			c.OK("C10.nofabricate", key, ret.Pos(), "residual comes from the condition")
+		}
+	}
+	c.Floor("C10.nofabricate", n, 6)
+}
+
+// recompileSourceRule: a pattern is recompiled from its source, not from its
+// printed form.
+func recompileSourceRule(c *Ctx, rule string) {
+	p := c.P
+	c.Rule(rule, "wherever the package compiles a pattern (regexp.Compile/MustCompile) from text that it obtained from a node, that text is the compiled pattern's own source (Regexp.String()), never the literal's printed form (RegexLiteral.String(), which adds the slashes and escapes every `/`): a clone compiled from the printed form of /a\\/b/ matches a backslash the original does not, and each further clone adds another")
+	n := 0
+	var src func(v ssa.Value, d int) string
+	src = func(v ssa.Value, d int) string {
+		if d > 6 {
+			return ""
+		}
+		switch x := v.(type) {
+		case *ssa.Call:
+			if cal := x.Call.StaticCallee(); cal != nil && cal.Name() == "String" && cal.Signature.Recv() != nil {
+				return p.TypeStr(cal.Signature.Recv().Type())
+			}
+			if x.Call.IsInvoke() && x.Call.Method.Name() == "String" {
+				return "an Expr"
+			}
+		case *ssa.Slice:
+			return src(x.X, d+1)
+		case *ssa.BinOp:
+			if s := src(x.X, d+1); s != "" {
+				return s
+			}
+			return src(x.Y, d+1)
+		case *ssa.Phi:
+			for _, e := range x.Edges {
+				if s := src(e, d+1); s != "" {
+					return s
+				}
+			}
+		}
+		return ""
+	}
+	var visit func(fn *ssa.Function)
+	visit = func(fn *ssa.Function) {
+		ord := 0
+		for _, b := range fn.Blocks {
+			for _, in := range b.Instrs {
+				call, ok := in.(*ssa.Call)
+				if !ok {
+					continue
+				}
+				cal := call.Call.StaticCallee()
+				if cal == nil || cal.Pkg == nil || cal.Pkg.Pkg.Path() != "regexp" || (cal.Name() != "Compile" && cal.Name() != "MustCompile") {
+					continue
+				}
+				if _, isConst := call.Call.Args[0].(*ssa.Const); isConst {
+					continue
+				}
+				ord++
+				n++
+				key := fmt.Sprintf("%s: regexp.%s #%d", ssaFuncName(fn), cal.Name(), ord)
+				switch s := src(call.Call.Args[0], 0); s {
+				case "*RegexLiteral", "an Expr":
+					c.Bad(rule, key, call.Pos(), "the text compiled is the printed form of "+s+" (slashes and escapes included), not the pattern's source")
+				default:
+					c.OK(rule, key, call.Pos(), "compiled from scanned text or from a pattern's own source")
+				}
+			}
+		}
+		for _, an := range fn.AnonFuncs {
+			visit(an)
+		}
+	}
+	for _, fn := range p.SrcFuncs() {
+		visit(fn)
+	}
+	c.Floor(rule, n, 2)
+}
